@@ -158,7 +158,25 @@ func c16RunNumber(t *fw.T) {
 var c16Tables = []struct {
 	name  string
 	table *[256]bool
-}{{"URLEncodingTable", &parse.URLEncodingTable}, {"DataURIEncodingTable", &parse.DataURIEncodingTable}}
+}{{"URLEncodingTable", &parse.URLEncodingTable}, {"DataURIEncodingTable", &parse.DataURIEncodingTable},
+	// tables of the caller's own ("its table"): an IRI-style copy of the URL table that leaves bytes >= 0x80 alone, a
+	// table that marks '%' only, and the complement of the URL table
+	{"caller's IRI table", c16CustomTable(0)}, {"caller's percent-only table", c16CustomTable(1)}, {"caller's complement table", c16CustomTable(2)}}
+
+func c16CustomTable(kind int) *[256]bool {
+	var tab [256]bool
+	for c := 0; c < 256; c++ {
+		switch kind {
+		case 0:
+			tab[c] = c < 0x80 && parse.URLEncodingTable[c]
+		case 1:
+			tab[c] = c == '%'
+		default:
+			tab[c] = !parse.URLEncodingTable[c]
+		}
+	}
+	return &tab
+}
 
 // c16CheckEncode: EncodeURL(x, table) == byte-wise reference reading the same table.
 func c16CheckEncode(t *fw.T, x []byte, ti int) ([]byte, bool) {
@@ -1075,7 +1093,7 @@ func init() {
 		ID: "C16",
 		Rule: "one case = one generated argument (plus, for Number/Dimension and DecodeURL, every prefix/suffix resp. truncation of it) placed in a window with 0, few or ample canary bytes of spare capacity; " +
 			"number: grammar-with-holes / alphabet soup / mutated numbers around (+|-)?(d+(.d+)?|.d+)((e|E)(+|-)?d+)? followed by %, units and the ASCII neighbours of the scanned classes, checked against regexp leftmost-longest, non-trivial = a number was matched; " +
-			"url: arbitrary bytes through EncodeURL with both tables (byte-wise reference), DecodeURL∘EncodeURL with URLEncodingTable, and damaged percent-encodings against url.QueryUnescape where it succeeds, non-trivial = non-empty bytes and an encoded text with '%'; " +
+			"url: arbitrary bytes through EncodeURL with both built-in tables and three caller-owned ones (IRI-style, %-only, complement of the URL table; byte-wise reference), DecodeURL∘EncodeURL with URLEncodingTable, and damaged percent-encodings against url.QueryUnescape where it succeeds, non-trivial = non-empty bytes and an encoded text with '%'; " +
 			"datauri: data:[type/subtype][;attr=value…][;base64],payload from arbitrary bytes (base64.StdEncoding or percent-encoding of at least everything outside A-Za-z0-9-_.~!'()*), plus inputs that are no data URI / have corrupt base64 / are hostile mutations, non-trivial = well-formed with non-empty payload; " +
 			"mediatype: lower-case unquoted type/subtype *(;attr=value) with optional spaces vs mime.ParseMediaType, plus hostile mutations (crash/read-only only), non-trivial = has parameters; " +
 			"fold: EqualFold on (case-perturbed s, lower-case target), ToLower/TrimWhitespace/IsAllWhitespace on whitespace-framed bytes; hash: every css/html constant + 6 near-misses per case; " +
